@@ -140,6 +140,37 @@ func streamC05(c *Ctx) {
 			return
 		}
 	}
+	// (v) what a kill at the wrong instant leaves on disk, reproduced directly: badger creates every memtable file empty and
+	// sizes it afterwards; with a file of length zero in the directory badger itself refuses to open the database
+	// (repaired defect F42: the adapter removes such files, which hold nothing)
+	{
+		im := NewImpl("badger-disk", c.Scratch)
+		im.Exec(opLine("createCollection", J{"coll": hx("m")}), -1, false)
+		im.Exec(opLine("insert", J{"coll": hx("m"), "docs": []interface{}{encDoc(map[string]interface{}{"_id": fixedId(1), "x": int64(1)})}}), -1, false)
+		before := im.Dump()
+		im.Close()
+		os.WriteFile(filepath.Join(im.dir, "00042.mem"), nil, 0o644)
+		reopened := ""
+		func() {
+			defer func() {
+				if r := recover(); r != nil {
+					reopened = fmt.Sprint(r)
+				}
+			}()
+			im.open()
+		}()
+		c.Evals++
+		if reopened != "" || im.Dump() != before {
+			if len(reopened) > 300 {
+				reopened = reopened[:300]
+			}
+			c.Violation(&Replay{Backend: "badger-disk", Stream: "crash", Case: []interface{}{J{"k": "empty-memtable-file", "file": "00042.mem"}}, Actual: []string{reopened},
+				Note: "with the empty memtable file a kill can leave behind, the database cannot be reopened (or lost content)"})
+			return
+		}
+		c.NonTrivial("empty-memtable-file")
+		im.Destroy()
+	}
 	// (iv) every store call of the multi-step catalog operations abandoned in turn (the transaction is dropped at that
 	// call, as a crash there would drop it), then close and reopen: the state is the one before the operation - never a
 	// mixture such as a collection that lost some of its indexes - and the same operation then succeeds
